@@ -138,6 +138,10 @@ class Extractor:
         self.err_classes = error_node_classes(model)
         self.functions: t.List[str] = []
         self.exit_problems: t.List[t.Tuple[str, str, str]] = []   # (loc, construct, message) for C03-R3
+        self.raw_reject: t.List[t.Tuple[str, bool, str]] = []     # literals directly controlling a rejecting site
+        self.raw_context: t.List[t.Tuple[str, bool, str]] = []    # every other literal on the way to a site
+        self.raw_subs: t.List[t.Tuple[str, str, t.List[str], str]] = []
+        self._finalized = False
 
     # ------------------------------------------------------------------ driver
 
@@ -148,12 +152,34 @@ class Extractor:
         self.stack.append(func.qualname)
         if func.qualname not in self.functions:
             self.functions.append(func.qualname)
-        before = len(self.atoms.d)
+        before = len(self.atoms.d) + len(self.raw_reject) + len(self.raw_context) + len(self.raw_subs)
         try:
             self._run(func, param_map or {})
         finally:
             self.stack.pop()
-        return len(self.atoms.d) > before
+        return len(self.atoms.d) + len(self.raw_reject) + len(self.raw_context) + len(self.raw_subs) > before
+
+    def finalize(self) -> 'Extractor':
+        """Turn the raw records into atoms.
+
+        REJECT literals (direct control dependences of a rejecting exit / of a fill of an error accumulator) keep their
+        polarity.  Any other literal on the way to a site is kept (with polarity) only if the pass never rejects on
+        that literal directly: otherwise it is a 'survivor' condition of an earlier rejection (`if a: reject` ... later
+        code runs under `not a`), which the early-exit style of the fast pass and the accumulate-then-test style of the
+        diagnostic pass order differently, as do `if a or b` and its split form."""
+        if self._finalized:
+            return self
+        self._finalized = True
+        rg = {t_ for (t_, _p, _l) in self.raw_reject}
+        for (text, pol, loc) in self.raw_reject:
+            self.atoms.add(('GATE', text, '+' if pol else '-'), loc)
+        for (text, pol, loc) in self.raw_context:
+            if text not in rg:
+                self.atoms.add(('GATE', text, '+' if pol else '-'), loc)
+        for (recv, arg, ctx, loc) in self.raw_subs:
+            kept = [x for x in ctx if (x[4:] if x.startswith('not ') else x) not in rg]
+            self.atoms.add(('SUB', recv, arg, ' & '.join(kept)), loc)
+        return self
 
     def _run(self, func: FuncInfo, param_map: t.Dict[str, str]) -> None:
         model = self.model
@@ -164,6 +190,7 @@ class Extractor:
                         name_hook=lambda nm, node: acc.descriptor(nm, base) if nm in acc.names else None)
         live = cfg.reachable()
         sites: t.List[Node] = []
+        reject_sites: t.Set[int] = set()
 
         # reject accumulators: those handed to an error node that is returned
         reject_acc: t.Set[str] = set()
@@ -184,24 +211,28 @@ class Extractor:
                 if self.mode == 'collect' and cls == PI:
                     self.exit_problems.append((func.loc(n.ast), 'raise ParseInterrupt', 'the diagnostic pass raises ParseInterrupt itself'))
                 sites.append(n)
+                reject_sites.add(n.id)
             elif n.kind == 'return' and self.mode == 'collect' and n.ast is not None and n.ast.value is not None:
                 v = n.ast.value
                 if not (isinstance(v, ast.Constant) and v.value is None):
                     if self._is_error_ctor(v, func):
                         sites.append(n)
+                        reject_sites.add(n.id)
             # (b) fills of reject accumulators
             if self.mode == 'collect':
                 for nm in reject_acc:
                     for (fn_node, _st, _k, _v) in acc.fills.get(nm, []):
                         if fn_node is n:
                             sites.append(n)
+                            reject_sites.add(n.id)
 
         # (c) sub-converter delegations
+        pending_subs: t.List[t.Tuple[t.Any, t.List[str]]] = []
         for sc in find_subcalls(model, self.cls, func, nz, cfg, self.attrs):
             if sc.node.id not in live or sc.method == 'into_data':
                 continue
             ctx = self._necessary_literals(sc.node, sc.call, func, cfg, nz, acc, reject_acc)
-            self.atoms.add(('SUB', sc.recv, sc.arg, ' & '.join(ctx)), func.loc(sc.call))
+            pending_subs.append((sc, ctx))
             sites.append(sc.node)
 
         # (d) helper calls on self (inlined)
@@ -245,13 +276,20 @@ class Extractor:
                 if nn is not None and nn.id in live:
                     sites.append(nn)
 
-        # context literals of every site
+        # literals of every site
         seen_sites: t.Set[int] = set()
-        for s in sites:
-            if s.id in seen_sites:
+        for s_ in sites:
+            if s_.id in seen_sites:
                 continue
-            seen_sites.add(s.id)
-            self._site_literals(s, func, cfg, nz, acc, reject_acc)
+            seen_sites.add(s_.id)
+            d, c = self._site_literals(s_, func, cfg, nz, acc, reject_acc)
+            if s_.id in reject_sites:
+                self.raw_reject += d
+                self.raw_context += c
+            else:
+                self.raw_context += d + c
+        for (sc, ctx) in pending_subs:
+            self.raw_subs.append((sc.recv, sc.arg, ctx, func.loc(sc.call)))
 
     # ------------------------------------------------------------------ pieces
 
@@ -344,22 +382,27 @@ class Extractor:
         return sorted(ops)
 
     def _site_literals(self, s: Node, func: FuncInfo, cfg: CFG, nz: Normalizer, acc: Accumulators,
-                       reject_acc: t.Set[str]) -> None:
+                       reject_acc: t.Set[str]) -> t.Tuple[t.List[t.Tuple[str, bool, str]], t.List[t.Tuple[str, bool, str]]]:
         byid = {n.id: n for n in cfg.nodes}
+        direct: t.List[t.Tuple[str, bool, str]] = []
+        context: t.List[t.Tuple[str, bool, str]] = []
+        dcd = cfg.control_deps().get(s.id, set())
         for (aid, lb) in sorted(cfg.conditions_of(s)):
             a = byid[aid]
+            bucket = direct if (aid, lb) in dcd else context
             if a.kind == 'cond':
                 for (text, pol) in self.expand_literal(a.ast, a, nz, lb == 'T', {}):
                     if self._skip_literal(text, acc, reject_acc, nz):
                         continue
-                    self.atoms.add(('GATE', text, '+' if pol else '-'), func.loc(a.ast))
+                    bucket.append((text, pol, func.loc(a.ast)))
             elif a.kind == 'iter' and lb == 'T':
                 for (text, pol) in self._loop_guards(a, nz):
-                    self.atoms.add(('GATE', text, '+' if pol else '-'), func.loc(a.ast))
+                    direct.append((text, pol, func.loc(a.ast)))
         # guards of comprehensions / filters inside the site's own expressions
         for root in node_exprs(s):
             for (text, pol) in self._expr_guards(root, s, nz):
-                self.atoms.add(('GATE', text, '+' if pol else '-'), func.loc(s.ast) if s.ast is not None else func.loc())
+                direct.append((text, pol, func.loc(s.ast) if s.ast is not None else func.loc()))
+        return direct, context
 
     def _necessary_literals(self, n: Node, call: ast.AST, func: FuncInfo, cfg: CFG, nz: Normalizer, acc: Accumulators,
                             reject_acc: t.Set[str]) -> t.List[str]:
@@ -406,6 +449,11 @@ class Extractor:
     def _expr_guards(self, root: ast.AST, node: Node, nz: Normalizer) -> t.List[t.Tuple[str, bool]]:
         out: t.List[t.Tuple[str, bool]] = []
         for sub, bound in walk_with_bindings(root, nz, node):
+            hr = nz.helper_return(sub) if isinstance(sub, ast.Call) else None
+            if hr is not None:
+                sub_nz, rv, rn = hr
+                out += self._expr_guards(rv, rn, sub_nz)
+                continue
             if isinstance(sub, ast.Call) and isinstance(sub.func, ast.Name) and sub.func.id == 'filter' and len(sub.args) == 2 \
                     and isinstance(sub.args[0], ast.Lambda) and sub.args[0].args.args:
                 lam = sub.args[0]
@@ -486,8 +534,10 @@ def pass_entry(model: Model, cls: ClassInfo, name: str) -> FuncInfo:
 def extract_pair(model: Model, cls: ClassInfo) -> t.Tuple[Extractor, Extractor]:
     et = Extractor(model, cls, 'try')
     et.run(pass_entry(model, cls, 'try_convert'))
+    et.finalize()
     ec = Extractor(model, cls, 'collect')
     ec.run(pass_entry(model, cls, 'collect_errors'))
+    ec.finalize()
     return et, ec
 
 
@@ -504,29 +554,41 @@ def rule_c03_r1_for(model: Model, class_names: t.Sequence[str]) -> RuleResult:
 
 
 def rule_c03_r1(model: Model, only: t.Optional[t.Sequence[str]] = None) -> RuleResult:
-    r = RuleResult('C03-R1', 'verdict atoms of try_convert and collect_errors agree, per Converter class', floor=18 if only is None else len(only))
+    """Pass agreement, decided as equality of Boolean reject predicates (see rejectpred.py) plus equality of the
+    sets of guarded operations with their handler classes."""
+    from .rejectpred import compare_passes
+    r = RuleResult('C03-R1', 'try_convert and collect_errors reject under the same conditions, per Converter class',
+                   floor=18 if only is None else len(only))
     for cls in family(model):
         if only is not None and cls.name not in only:
             continue
-        et, ec = extract_pair(model, cls)
+        res = compare_passes(model, cls)
         r.instances += 1
-        r.analysed.update(et.functions)
-        r.analysed.update(ec.functions)
-        kt, kc = et.atoms.keys(), ec.atoms.keys()
-        r.sample({'class': cls.name, 'atoms_fast': len(kt), 'atoms_diag': len(kc),
-                  'example': fmt_atom(sorted(kt)[0]) if kt else None})
-        for k in sorted(kt & kc):
+        r.analysed.update(res['functions'])
+        r.sample({'class': cls.name, 'verdict_literals': len(res['vars']), 'truth_table_rows': 1 << len(res['vars']),
+                  'equal': res['equal'], 'example_literal': res['vars'][0] if res['vars'] else None})
+        if res['equal']:
+            r.ok(max(1, len(res['vars'])))
+        else:
+            who = 'fast' if res['fast_rejects'] else 'diagnostic'
+            other = 'diagnostic' if res['fast_rejects'] else 'fast'
+            dep = res['depends_on']
+            loc = next((res['locs'].get(v) for v in dep if res['locs'].get(v)), f"{cls.module.relpath}:{cls.node.lineno}")
+            wt = ', '.join(res['witness_true']) or '(no literal true)'
+            r.fail(cls.qualname, f"passes disagree; the disagreement depends on {'; '.join(dep[:5])}", loc,
+                   f"the {who} pass rejects but the {other} pass accepts when exactly these literals hold: {wt[:300]} -- "
+                   f"convert() would raise the internal RuntimeError, or an accepted value would get an error tree")
+        gt, gc = res['guarded_try'], res['guarded_collect']
+        for k in sorted(set(gt) & set(gc)):
             r.ok()
-        for k in sorted(kt - kc):
-            loc = et.atoms.d[k][0]
-            r.fail(cls.qualname, f"fast-only {fmt_atom(k)}", loc,
-                   f"try_convert depends on {fmt_atom(k)} but collect_errors has no counterpart: "
-                   f"a value rejected by the fast pass for this reason gets no error tree (or vice versa)")
-        for k in sorted(kc - kt):
-            loc = ec.atoms.d[k][0]
-            r.fail(cls.qualname, f"diag-only {fmt_atom(k)}", loc,
-                   f"collect_errors depends on {fmt_atom(k)} but try_convert has no counterpart: "
-                   f"the two passes can disagree on the verdict")
+        for k in sorted(set(gt) - set(gc)):
+            r.fail(cls.qualname, f"fast-only GUARDED[{k[0]} under except {k[1]}]", gt[k],
+                   f"try_convert guards {k[0]} with `except {k[1]}` but collect_errors has no such guard: an exception class caught by "
+                   f"one pass escapes the other")
+        for k in sorted(set(gc) - set(gt)):
+            r.fail(cls.qualname, f"diag-only GUARDED[{k[0]} under except {k[1]}]", gc[k],
+                   f"collect_errors guards {k[0]} with `except {k[1]}` but try_convert has no such guard: an exception class caught by "
+                   f"one pass escapes the other")
     return r
 
 
